@@ -16,6 +16,7 @@ import Petl.Views
 import Petl.TempFiles
 import Petl.Db
 import Petl.Lazy
+import Petl.Csv
 namespace Petl
 
 def opCmp : P String := do
@@ -839,6 +840,31 @@ def opLazy : P String := do
     | _ => P.fail s!"bad lazy kind {kind}"
   pure (toString res.2 ++ " " ++ showTable res.1)
 
+/-- csv w <qa> <d> <q> <table of text cells>  ->  the text `csv.writer` produces (as one S token)
+    csv r <d> <q> <text as S token>          ->  the records `csv.reader` delivers, then `ERR` if the machine flagged an error -/
+def opCsv : P String := do
+  let which ← tok
+  match which with
+  | "w" =>
+    let qa ← pBool
+    let d ← pNat
+    let q ← pNat
+    let t ← pTable
+    let recs : List Csv.Record := t.map (fun r => r.map (fun v => match v with | .str s => s | _ => []))
+    pure ("S" ++ showCps (Csv.writeAll qa d q recs))
+  | "r" =>
+    let d ← pNat
+    let q ← pNat
+    let v ← pVal
+    match v with
+    | .str text =>
+      let ps := Csv.run d q (.none, Csv.St.init) text
+      let recs := Csv.finish ps
+      let out := showTable (recs.map (fun r => r.map Val.str))
+      pure (if ps.2.err then out ++ " ERR csv" else out)
+    | _ => P.fail "csv r needs text"
+  | _ => P.fail s!"bad csv op {which}"
+
 def dispatch (op : String) : Option (P String) :=
   match op with
   | "cmp" => some opCmp
@@ -872,6 +898,7 @@ def dispatch (op : String) : Option (P String) :=
   | "tf" => some opTf
   | "db" => some opDb
   | "lazy" => some opLazy
+  | "csv" => some opCsv
   | _ => none
 
 end Petl
